@@ -230,8 +230,25 @@ static void range_oracle(void) {
             }
         }
     }
+    /* every posted or prepared job reads its source from inside the round buffer; a job that has not been through its serial section
+     * yet does not lie inside the LDM window (the window only covers data of jobs already processed: otherwise window data was overwritten) */
+    {   unsigned const last = m->nextJobID + (m->jobReady ? 1 : 0); unsigned a;
+        int const ldm_ok = m->params.ldmParams.enableLdm == ZSTD_ps_enable && owner_of(&m->serial.ldmWindowMutex) < 0 && owner_of(&m->serial.mutex) < 0;
+        if (m->roundBuff.buffer && last - m->doneJobID <= m->jobIDMask + 1)
+        for (a = m->doneJobID; a < last; a++) {
+            ZSTDMT_jobDescription* ja = &m->jobs[a & m->jobIDMask];
+            const BYTE* a0 = (const BYTE*)ja->src.start; const BYTE* a1 = a0 + ja->src.size;
+            if (ja->jobID != a || ja->src.size == 0 || a0 == NULL) continue;
+            if (a0 < m->roundBuff.buffer || a1 > m->roundBuff.buffer + m->roundBuff.capacity) { oracle("the source of a job is not inside the round buffer"); return; }
+            if (ldm_ok && a >= m->serial.nextJobID && owner_of(&ja->job_mutex) < 0) {
+                buffer_t b; b.start = (void*)a0; b.capacity = ja->src.size;
+                if (ZSTDMT_doesOverlapWindow(b, m->serial.ldmWindow)) { oracle("the source of a job that has not been through its serial section overlaps the LDM window"); return; }
+            }
+        }
+    }
     if (m->inBuff.buffer.start == NULL) return;
     {   const BYTE* b0 = (const BYTE*)m->inBuff.buffer.start; const BYTE* b1 = b0 + m->targetSectionSize;
+        if (m->roundBuff.buffer && (b0 < m->roundBuff.buffer || b1 > m->roundBuff.buffer + m->roundBuff.capacity)) { oracle("input range handed to the caller is not inside the round buffer"); return; }
         for (id = m->doneJobID; id < m->nextJobID; id++) {
             ZSTDMT_jobDescription* j = &m->jobs[id & m->jobIDMask];
             if (j->consumed < j->src.size) {
@@ -242,7 +259,8 @@ static void range_oracle(void) {
         }
         if (m->params.ldmParams.enableLdm == ZSTD_ps_enable && owner_of(&m->serial.ldmWindowMutex) < 0 && owner_of(&m->serial.mutex) < 0) {
             buffer_t b; b.start = (void*)b0; b.capacity = m->targetSectionSize;
-            if (m->inBuff.filled == 0 && ZSTDMT_doesOverlapWindow(b, m->serial.ldmWindow)) { /* just handed out */ oracle("input range handed to the caller overlaps the LDM window"); }
+            /* the window only ever advances over posted jobs, never into the buffer the caller is filling */
+            if (ZSTDMT_doesOverlapWindow(b, m->serial.ldmWindow)) { oracle("input range handed to the caller overlaps the LDM window"); }
         }
     }
 }
